@@ -35,11 +35,16 @@ def run(tier, seed, jobs):
              "params": dict(n=2, keys=["a", "b", "c"], maxsize=1, max_inflight=2, max_calls=4)},
             {"mod": MOD, "cls": "CacheModel", "opts": {"pairs": False}, "max_depth": 6,
              "params": dict(n=2, keys=["a", "b"], maxsize=2, ttl=5, max_inflight=2, max_calls=4)},
+            # expiry racing with a second caller while the first one sits in its checkpoint
+            {"mod": MOD, "cls": "CacheModel", "opts": o, "max_depth": 4,
+             "params": dict(n=2, keys=["a"], maxsize=2, ttl=5, max_inflight=2, max_calls=4,
+                            always_checkpoint=True)},
         ]
         seqs = [(1, False, ["a", "b"], 5, None), (2, False, ["a", "b", "c"], 6, None),
                 (3, False, ["a", "b", "c", "d"], 6, None), (2, True, [1, 1.0, 2], 5, None),
                 (2, False, ["a", "b", "c"], 5, "b"),
-                (None, False, ["a", "b"], 4, None), (0, False, ["a", "b"], 4, None)]
+                (None, False, ["a", "b"], 4, None), (0, False, ["a", "b"], 4, None),
+                (2, True, [1, 1.0], 4, None, "mixed"), (1, False, ["a", "b"], 4, None, "kw")]
     else:
         configs = []
         for ms in (1, 2, None, 0):
@@ -62,6 +67,8 @@ def run(tier, seed, jobs):
                 for ms in (0, 1, 2, 3, None) for t in (False, True)
                 for ks, ln in ((["a", "b", "c", "d"], 7), ([1, 1.0, 2, 2.0], 6))
                 for fk in (None, ks[1]) if t or isinstance(ks[0], str)]
+        seqs += [(ms, t, ks, 5, None, "mixed") for ms in (1, 2, None) for t in (False, True)
+                 for ks in (["a", "b"], [1, 1.0]) if t or isinstance(ks[0], str)]
     cov, viol = run_models(configs, jobs, _sig)
     with mp.Pool(min(jobs, len(seqs))) as pool:
         seqres = pool.map(_seq_job, seqs)
